@@ -120,7 +120,7 @@ pub fn catch<T, F: FnOnce() -> T + std::panic::UnwindSafe>(f: F) -> Result<T, St
                       else { "panic".into() }),
     }
 }
-pub fn quiet_panics() { std::panic::set_hook(Box::new(|_| {})); }
+pub fn quiet_panics() { if std::env::var_os("VERIF_LOUD_PANICS").is_none() { std::panic::set_hook(Box::new(|_| {})); } }
 
 /// Statistics of the generated input distribution, printed into the evidence.
 #[derive(Default)]
